@@ -50,6 +50,56 @@ func suiteNode(c *Ctx) {
 		net.run(prof)
 		c.Class(fmt.Sprintf("scenario/honest/n%d", n))
 	}
+	// adversarial scenarios: Byzantine members of total weight <= f, all strategies
+	nadv := 60
+	if c.Thorough() {
+		nadv = 1200
+	}
+	for i := 0; i < nadv; i++ {
+		n := 4 + r.Intn(4)
+		ws := make([]uint64, n)
+		switch r.Intn(3) {
+		case 0:
+			for k := range ws {
+				ws[k] = 1
+			}
+		case 1:
+			for k := range ws {
+				ws[k] = uint64(1 + r.Intn(4))
+			}
+		default:
+			for k := range ws {
+				ws[k] = uint64(1 + r.Intn(3))
+			}
+			ws[r.Intn(n)] = uint64(3 + r.Intn(4))
+		}
+		var W uint64
+		for _, w := range ws {
+			W += w
+		}
+		f := (W - 1) / 3
+		// choose a Byzantine subset of weight <= f (greedy over a random permutation), at least one member when possible
+		perm := r.Perm(n)
+		var byz []int
+		var bw uint64
+		for _, k := range perm {
+			if bw+ws[k] <= f && len(byz) < n-3 {
+				byz = append(byz, k)
+				bw += ws[k]
+			}
+		}
+		if len(byz) == 0 {
+			continue
+		}
+		opts := NetOpts{N: n, Weights: ws, ByzIdx: byz, Inst: uint64(100 + r.Intn(3))}
+		net := NewNet(c, opts, fmt.Sprintf("byzantine n=%d weights=%v byz=%v", n, ws, byz))
+		prof := SchedProfile{Drop: 20, Dup: 20, Timeout: 40, StaleTimeout: 100, Sync: 3, Byz: 120, CancelDuring: 10, CommitFail: 5, MaxSteps: 500, MaxHeight: 2}
+		if i%4 == 1 {
+			prof.Timeout = 150
+		}
+		net.run(prof)
+		c.Class(fmt.Sprintf("scenario/byzantine/n%d/b%d", n, len(byz)))
+	}
 }
 
 // laggard: one correct node receives nothing while the others decide two heights, then receives
